@@ -16,7 +16,11 @@ func (p *Path) exec(in ssa.Instruction) {
 	case *ssa.Alloc:
 		n := p.fx.fresh("alloc_" + i.Comment)
 		p.declare(n, "Ref")
-		p.allocFresh(n)
+		if isStackCell(i) {
+			p.allocFreshTag(n, -5)
+		} else {
+			p.allocFresh(n)
+		}
 		for k, a := range p.fx.allocs {
 			if a == i {
 				p.assume(fmt.Sprintf("(= (iidx %s) %d)", n, k))
